@@ -6,6 +6,7 @@ package fixture
 import (
 	"errors"
 	"os"
+	"strings"
 	"sync"
 )
 
@@ -299,4 +300,37 @@ func flagGuardBad() {
 	if ok {
 		sink(p)
 	}
+}
+
+// ---- length rule for constant indexes into Split results ----
+func splitIndexBad(v string) string {
+	parts := strings.Split(v, ".")
+	if parts[0] != "1" {
+		return ""
+	}
+	return parts[1]
+}
+
+func splitIndexGood(v string) string {
+	parts := strings.Split(v, ".")
+	if len(parts) < 2 {
+		return ""
+	}
+	return parts[1]
+}
+
+func splitIndexGood2(v string) string {
+	parts := strings.Split(v, ".")
+	if 1 < len(parts) && parts[1] != "" {
+		return parts[1]
+	}
+	return ""
+}
+
+func splitIndexWeak(v string) string {
+	parts := strings.Split(v, ".")
+	if len(parts) >= 1 {
+		return parts[1]
+	}
+	return ""
 }
